@@ -187,3 +187,49 @@ Proof.
   - split; [|reflexivity].
     repeat constructor; cbn; intros H; repeat (destruct H as [H|H]; [discriminate H|]); exact H.
 Qed.
+
+(* ---- the composition: files written by the Spec writer, for ANY record lists ------------------------------- *)
+From GixV.C14 Require Import ProofsWrite.
+
+(* File::new accepts every file [write_file] makes (with or without EDGE / BASE chunk) and the File it returns holds
+   the writer's tables: the hypothesis [file_holds] of the theorems above is discharged. *)
+Theorem written_file_opens : forall rs base trailer,
+  Forall rec_ok rs -> N.of_nat (length rs) < U32 -> length trailer = 20%nat ->
+  len base mod 20 = 0 -> len base / 20 < 256 ->
+  len (write_file rs base trailer) < U64 ->
+  exists f, file_new (write_file rs base trailer) = Ok f /\ file_holds f rs.
+Proof. exact L_written_file_holds. Qed.
+
+(* graph_RT + every_commit_found, end to end on bytes: for a chain of written files (layers lpre ++ rs :: lpost,
+   any base checksums and trailers) every file opens, Graph::new accepts them, num_commits is the number of commits,
+   and record i of layer rs is read at graph position (#commits below + i) with its id, tree, generation, time and
+   parent positions - through commit_at/id_at and, ids being unique, through lookup/commit_by_id. *)
+Theorem graph_RT_written_chain : forall ds lpre rs lpost,
+  Forall2 written_as ds (lpre ++ rs :: lpost) -> Forall layer_ok (lpre ++ rs :: lpost) ->
+  commits_in (lpre ++ rs :: lpost) <= MAX_COMMITS ->
+  exists g f, open_all ds = Ok g /\ graph_new g = Ok g /\
+    graph_num_commits g = Ok (commits_in (lpre ++ rs :: lpost)) /\
+    forall i, (i < length rs)%nat ->
+      let r := nth i rs dummy_rec in
+      graph_id_at g (gpos lpre i) = Ok (r_id r) /\
+      (exists c, graph_commit_at g (gpos lpre i) = Ok (f, c) /\
+         c_tree c = r_tree r /\ c_generation c = r_gen r /\ c_time c = r_time r /\
+         parents f c = Ok (r_parents r, None)) /\
+      (~ In (r_id r) (map r_id (concat lpre)) -> NoDup (map r_id rs) ->
+       graph_lookup g (r_id r) = Ok (Some (gpos lpre i)) /\
+       exists c, graph_commit_by_id g (r_id r) = Ok (Some (f, N.of_nat i, c)) /\
+         c_tree c = r_tree r /\ c_generation c = r_gen r /\ c_time c = r_time r /\
+         parents f c = Ok (r_parents r, None)).
+Proof. exact L_graph_RT_written. Qed.
+
+Example written_chain_hypotheses_satisfiable :
+  Forall2 written_as [write_file ex_rs [] (repeat x00 20)] ([] ++ ex_rs :: []) /\
+  Forall layer_ok ([] ++ ex_rs :: []) /\ commits_in ([] ++ ex_rs :: []) <= MAX_COMMITS.
+Proof.
+  split; [|split].
+  - constructor; [|constructor]. exists [], (repeat x00 20).
+    split; [reflexivity|]. split; [reflexivity|]. split; [reflexivity|]. split; [reflexivity|].
+    vm_compute. reflexivity.
+  - constructor; [|constructor]. apply written_file_holds.
+  - vm_compute. intros H; discriminate H.
+Qed.
